@@ -4,8 +4,8 @@ use proc_macro2::{Span, TokenStream};
 use quote::{format_ident, quote, ToTokens};
 use structmeta::{Flag, NameArgs, NameValue, Parse, StructMeta};
 use syn::{
-    ext::IdentExt, parse::Parse, parse2, parse_quote, spanned::Spanned, token, Attribute, Data, DataEnum,
-    DataStruct, DeriveInput, Error, Expr, ExprLit, Field, Fields, Ident, Index, ItemEnum,
+    ext::IdentExt, parse::Parse, parse2, parse_quote, spanned::Spanned, token, Attribute, Data,
+    DataEnum, DataStruct, DeriveInput, Error, Expr, ExprLit, Field, Fields, Ident, Index, ItemEnum,
     ItemStruct, Lit, Meta, Path, Result, Type, Variant,
 };
 
@@ -182,6 +182,7 @@ fn build_binary_op(
     e: &DeriveEntry,
     fields: &[FieldEntry],
 ) -> Result<TokenStream> {
+    let allow_deprecated = allow_deprecated_for_struct(item);
     let kind = DeriveItemKind::BinaryOp(op);
     let (_, type_g, _) = item.generics.split_for_impl();
     let this_ty_ident = &item.ident;
@@ -218,7 +219,7 @@ fn build_binary_op(
         });
         quote! {
             #[automatically_derived]
-            #[allow(deprecated)]
+            #allow_deprecated
             impl #impl_g #trait_<#rhs_ty> for #self_ty #wheres {
                 type Output = #this_ty;
                 fn #func_name(self, __rhs: #rhs_ty) -> Self::Output {
@@ -241,6 +242,7 @@ fn build_assign_op(
     e: &DeriveEntry,
     fields: &[FieldEntry],
 ) -> Result<TokenStream> {
+    let allow_deprecated = allow_deprecated_for_struct(item);
     let kind = DeriveItemKind::AssignOp(op);
     let (_, type_g, _) = item.generics.split_for_impl();
     let this_ty_ident = &item.ident;
@@ -272,7 +274,7 @@ fn build_assign_op(
         });
         quote! {
             #[automatically_derived]
-            #[allow(deprecated)]
+            #allow_deprecated
             impl #impl_g #trait_<#rhs_ty> for #this_ty #wheres {
                 fn #func_name(&mut self, __rhs: #rhs_ty) {
                     #(#exprs;)*
@@ -292,6 +294,7 @@ fn build_unary_op(
     e: &DeriveEntry,
     fields: &[FieldEntry],
 ) -> Result<TokenStream> {
+    let allow_deprecated = allow_deprecated_for_struct(item);
     let kind = DeriveItemKind::UnaryOp(op);
     let (_, type_g, _) = item.generics.split_for_impl();
     let this_ty_ident = &item.ident;
@@ -323,7 +326,7 @@ fn build_unary_op(
         });
         quote! {
             #[automatically_derived]
-            #[allow(deprecated)]
+            #allow_deprecated
             impl #impl_g #trait_ for #self_ty #wheres {
                 type Output = #this_ty;
                 fn #func_name(self) -> Self::Output {
@@ -344,6 +347,7 @@ fn build_clone_for_struct(
     e: &DeriveEntry,
     fields: &[FieldEntry],
 ) -> Result<TokenStream> {
+    let allow_deprecated = allow_deprecated_for_struct(item);
     let kind = DeriveItemKind::Clone;
     let (impl_g, type_g, _) = item.generics.split_for_impl();
     let this_ty_ident = &item.ident;
@@ -366,7 +370,7 @@ fn build_clone_for_struct(
     let wheres = wcb.build(|ty| quote!(#ty : #trait_));
     Ok(quote! {
         #[automatically_derived]
-        #[allow(deprecated)]
+        #allow_deprecated
         impl #impl_g #trait_ for #this_ty #wheres {
             fn clone(&self) -> Self {
                 #this_ty_ident #ctor_args
@@ -382,6 +386,7 @@ fn build_clone_for_enum(
     e: &DeriveEntry,
     variants: &[VariantEntry],
 ) -> Result<TokenStream> {
+    let allow_deprecated = allow_deprecated_for_enum(item);
     let kind = DeriveItemKind::Clone;
     let (impl_g, type_g, _) = item.generics.split_for_impl();
     let this_ty_ident = &item.ident;
@@ -431,8 +436,7 @@ fn build_clone_for_enum(
     };
     Ok(quote! {
         #[automatically_derived]
-        #[allow(deprecated)]
-        #[allow(non_snake_case)]
+        #allow_deprecated
         impl #impl_g #trait_ for #this_ty #wheres {
             fn clone(&self) -> Self {
                 match #this {
@@ -453,6 +457,7 @@ fn build_copy_for_struct(
     e: &DeriveEntry,
     fields: &[FieldEntry],
 ) -> Result<TokenStream> {
+    let allow_deprecated = allow_deprecated_for_struct(item);
     let kind = DeriveItemKind::Copy;
     let (impl_g, type_g, _) = item.generics.split_for_impl();
     let this_ty_ident = &item.ident;
@@ -467,7 +472,7 @@ fn build_copy_for_struct(
     let wheres = wcb.build(|ty| quote!(#ty : #trait_));
     Ok(quote! {
         #[automatically_derived]
-        #[allow(deprecated)]
+        #allow_deprecated
         impl #impl_g #trait_ for #this_ty #wheres {}
     })
 }
@@ -476,6 +481,7 @@ fn build_copy_for_enum(
     e: &DeriveEntry,
     variants: &[VariantEntry],
 ) -> Result<TokenStream> {
+    let allow_deprecated = allow_deprecated_for_enum(item);
     let kind = DeriveItemKind::Copy;
     let (impl_g, type_g, _) = item.generics.split_for_impl();
     let this_ty_ident = &item.ident;
@@ -495,7 +501,7 @@ fn build_copy_for_enum(
     let wheres = wcb.build(|ty| quote!(#ty : #trait_));
     Ok(quote! {
         #[automatically_derived]
-        #[allow(deprecated)]
+        #allow_deprecated
         impl #impl_g #trait_ for #this_ty #wheres {}
     })
 }
@@ -506,6 +512,7 @@ fn build_debug_for_struct(
     hattrs: &HelperAttributes,
     fields: &[FieldEntry],
 ) -> Result<TokenStream> {
+    let allow_deprecated = allow_deprecated_for_struct(item);
     let kind = DeriveItemKind::Debug;
     let (impl_g, type_g, _) = item.generics.split_for_impl();
     let this_ty_ident = &item.ident;
@@ -530,7 +537,7 @@ fn build_debug_for_struct(
     let ref_def = build_debug_ref_def();
     Ok(quote! {
         #[automatically_derived]
-        #[allow(deprecated)]
+        #allow_deprecated
         impl #impl_g #trait_ for #this_ty #wheres {
             fn fmt(&self, __f: &mut ::core::fmt::Formatter) -> ::core::fmt::Result {
                 #ref_def
@@ -545,6 +552,7 @@ fn build_debug_for_enum(
     hattrs: &HelperAttributes,
     variants: &[VariantEntry],
 ) -> Result<TokenStream> {
+    let allow_deprecated = allow_deprecated_for_enum(item);
     let kind = DeriveItemKind::Debug;
     let (impl_g, type_g, _) = item.generics.split_for_impl();
     let this_ty_ident = &item.ident;
@@ -581,8 +589,7 @@ fn build_debug_for_enum(
     let ref_def = build_debug_ref_def();
     Ok(quote! {
         #[automatically_derived]
-        #[allow(deprecated)]
-        #[allow(non_snake_case)]
+        #allow_deprecated
         impl #impl_g #trait_ for #this_ty #wheres {
             fn fmt(&self, __f: &mut ::core::fmt::Formatter) -> ::core::fmt::Result {
                 #ref_def
@@ -662,6 +669,7 @@ fn build_default_for_struct(
     hattrs: &HelperAttributes,
     fields: &[FieldEntry],
 ) -> Result<TokenStream> {
+    let allow_deprecated = allow_deprecated_for_struct(item);
     let kind = DeriveItemKind::Default;
     let (impl_g, type_g, _) = item.generics.split_for_impl();
     let this_ty_ident = &item.ident;
@@ -683,7 +691,7 @@ fn build_default_for_struct(
     let wheres = wcb.build(|ty| quote!(#ty : #trait_));
     Ok(quote! {
         #[automatically_derived]
-        #[allow(deprecated)]
+        #allow_deprecated
         impl #impl_g #trait_ for #this_ty #wheres {
             fn default() -> Self {
                 #value
@@ -698,6 +706,7 @@ fn build_default_for_enum(
     hattrs: &HelperAttributes,
     variants: &[VariantEntry],
 ) -> Result<TokenStream> {
+    let allow_deprecated = allow_deprecated_for_enum(item);
     let kind = DeriveItemKind::Default;
     let (impl_g, type_g, _) = item.generics.split_for_impl();
     let this_ty_ident = &item.ident;
@@ -751,7 +760,7 @@ fn build_default_for_enum(
     let wheres = wcb.build(|ty| quote!(#ty : #trait_));
     Ok(quote! {
         #[automatically_derived]
-        #[allow(deprecated)]
+        #allow_deprecated
         impl #impl_g #trait_ for #this_ty #wheres {
             fn default() -> Self {
                 #value
@@ -789,6 +798,7 @@ fn build_deref_for_struct(
     e: &DeriveEntry,
     fields: &[FieldEntry],
 ) -> Result<TokenStream> {
+    let allow_deprecated = allow_deprecated_for_struct(item);
     let kind = e.kind;
     let (impl_g, type_g, _) = item.generics.split_for_impl();
     let this_ty_ident = &item.ident;
@@ -836,7 +846,7 @@ fn build_deref_for_struct(
     let wheres = wcb.build(|ty| quote!(#ty : #trait_));
     Ok(quote! {
         #[automatically_derived]
-        #[allow(deprecated)]
+        #allow_deprecated
         impl #impl_g #trait_ for #this_ty #wheres {
             #content
         }
@@ -1249,14 +1259,11 @@ impl<'a> FieldEntry<'a> {
         }
     }
     fn make_ident(&self, prefix: &str) -> Ident {
-        // generated names start with `__` (reserved for the generator), whatever the field is called
-        let prefix = prefix.trim_start_matches('_');
+        // Generated names start with `__` (reserved for the generator) and are numbered, not named after the field:
+        // they are snake case and valid identifiers whatever the field is called.
+        let prefix = prefix.trim_matches('_');
         let prefix = if prefix.is_empty() { "v" } else { prefix };
-        if let Some(ident) = &self.field.ident {
-            format_ident!("__{}_{}", prefix, ident)
-        } else {
-            format_ident!("__{}_{}", prefix, self.index)
-        }
+        format_ident!("__{}_{}", prefix, self.index)
     }
     fn push_bounds_to(&self, use_bounds: bool, kind: DeriveItemKind, wcb: &mut WhereClauseBuilder) {
         if self.hattrs.push_bounds_to(use_bounds, kind, wcb) {
@@ -1591,4 +1598,30 @@ enum AttributeTarget {
     Type,
     Variant,
     Field,
+}
+
+fn has_deprecated<'a>(attrs: impl IntoIterator<Item = &'a Attribute>) -> bool {
+    attrs.into_iter().any(|a| a.path().is_ident("deprecated"))
+}
+/// `#[allow(deprecated)]` for the impls of an item that marks itself or one of its fields as deprecated
+/// (the impls have to mention them).
+pub(super) fn allow_deprecated_for_struct(item: &ItemStruct) -> TokenStream {
+    if has_deprecated(
+        item.attrs
+            .iter()
+            .chain(item.fields.iter().flat_map(|f| &f.attrs)),
+    ) {
+        quote!(#[allow(deprecated)])
+    } else {
+        quote!()
+    }
+}
+pub(super) fn allow_deprecated_for_enum(item: &ItemEnum) -> TokenStream {
+    let vs = item.variants.iter();
+    let in_variants = vs.flat_map(|v| v.attrs.iter().chain(v.fields.iter().flat_map(|f| &f.attrs)));
+    if has_deprecated(item.attrs.iter().chain(in_variants)) {
+        quote!(#[allow(deprecated)])
+    } else {
+        quote!()
+    }
 }
